@@ -29,7 +29,7 @@ CONSTANTS Addr, Slot, Val,   \* Val includes 0 = empty slot
           MaxBal,            \* balances range over 0..MaxBal
           MaxCommits, MaxMerges, MaxHist,
           WriteSets,         \* subsets of Slot a single effect may write
-          Kinds,             \* effect kinds enabled
+          Kinds,             \* effect kinds enabled ("rich" = more info variants per effect)
           Obs                \* observation operations enabled
 
 Absent == [ex |-> FALSE, bal |-> 0, nonce |-> 0, code |-> 0]
@@ -96,9 +96,13 @@ WSeqs(orig, ws) ==
     IN {[i \in 1..Len(ks) |-> [k |-> ks[i], o |-> orig[ks[i]], n |-> f[ks[i]]]] : f \in [ws -> Val]}
 
 InfoAfterChange(i) ==
-    {[ex |-> TRUE, bal |-> b, nonce |-> n, code |-> i.code] :
-        b \in {x \in {i.bal - 1, i.bal, i.bal + 1} : x >= 0 /\ x <= MaxBal},
-        n \in {x \in {i.nonce, i.nonce + 1} : x <= 2}}
+    IF "rich" \in Kinds
+    THEN {[ex |-> TRUE, bal |-> b, nonce |-> n, code |-> i.code] :
+            b \in {x \in {i.bal - 1, i.bal, i.bal + 1} : x >= 0 /\ x <= MaxBal},
+            n \in {x \in {i.nonce, i.nonce + 1} : x <= 2}}
+    ELSE {[ex |-> TRUE, bal |-> i.bal, nonce |-> i.nonce, code |-> i.code]}
+         \cup (IF i.bal < MaxBal THEN {[ex |-> TRUE, bal |-> i.bal + 1, nonce |-> i.nonce, code |-> i.code]} ELSE {})
+         \cup (IF i.nonce < 2 /\ i.code = 0 THEN {[ex |-> TRUE, bal |-> i.bal, nonce |-> i.nonce + 1, code |-> i.code]} ELSE {})
 
 Effects(P, a) ==
     LET acc == P[a]
@@ -116,14 +120,15 @@ Effects(P, a) ==
               THEN {[kind |-> "create", a |-> a,
                      info |-> [ex |-> TRUE, bal |-> b, nonce |-> IF StateClear THEN 1 ELSE 0, code |-> c],
                      w |-> w] :
-                       b \in {x \in {i.bal, i.bal + 1} : x <= MaxBal}, c \in {0, 1, 2},
+                       b \in IF "rich" \in Kinds THEN {x \in {i.bal, i.bal + 1} : x <= MaxBal} ELSE {i.bal},
+                       c \in IF "rich" \in Kinds THEN {0, 1, 2} ELSE {1, 2},
                        w \in UNION {WSeqs(zero, ws) : ws \in WriteSets}}
               ELSE {})
         \cup (IF "create_destroy" \in Kinds /\ i.code = 0 /\ i.nonce = 0 /\ NoStorage(acc.stor)
               THEN {[kind |-> "create_destroy", a |-> a, info |-> Absent, w |-> <<>>]} ELSE {})
         \* selfdestruct: an existing contract
         \cup (IF "selfdestruct" \in Kinds /\ i.ex /\ i.code # 0
-              THEN {[kind |-> "selfdestruct", a |-> a, info |-> Absent, w |-> <<>>]} ELSE {})
+              THEN {[kind |-> "selfdestruct", a |-> a, info |-> i, w |-> <<>>]} ELSE {})   \* info: as before the effect
         \cup (IF "touch_empty" \in Kinds /\ (~i.ex \/ IsEmptyInfo(i))
               THEN {[kind |-> "touch_empty", a |-> a, info |-> Absent, w |-> <<>>]} ELSE {})
         \cup (IF "load_only" \in Kinds
@@ -134,10 +139,12 @@ Txs(P) ==
     {<<e>> : e \in UNION {Effects(P, a) : a \in Addr}}
     \cup (IF "pair" \in Kinds
           THEN {<<e1, e2>> : e1 \in UNION {Effects(P, a) : a \in Addr},
-                             e2 \in UNION {Effects(P, a) : a \in Addr}} \ {<<>>}
+                             e2 \in UNION {Effects(P, a) : a \in Addr}}
           ELSE {})
 
-ValidTx(t) == Len(t) = 1 \/ (t[1].a < t[2].a /\ t[1].kind # "load_only" /\ t[2].kind # "load_only")
+\* (IF, not \/: inside an action TLC would evaluate both disjuncts as separate branches)
+ValidTx(t) == IF Len(t) = 1 THEN TRUE
+              ELSE t[1].a < t[2].a /\ t[1].kind # "load_only" /\ t[2].kind # "load_only"
 
 -----------------------------------------------------------------------------
 Emit(op) == PrintT("EDGE " \o ToJson([hist |-> hist, op |-> op, st |-> st]))
